@@ -94,7 +94,8 @@ CHECKS.update({
              "(4) unbounded: spec/NodeIdsProof.tla states the same atomic steps for ANY set of threads requesting ids forever over ANY used set; its inductive invariant (every id handed out is a distinct recyclable gap below the cursor or a distinct value of the fresh counter) "
              "is proved with TLAPS (83 obligations, re-proved by every run); TLC checks that NodeIds.tla refines it and that its assumptions hold for what ConcurrentNodeIds::new computes (NodeIdsRefine.tla, every used set of 0..5 in the thorough tier). "
              "(5) the per-thread write-back buffer TmpNodes (hook H5 exports the type): spec/TmpNodes.tla proves by TLC that deferring put/remove/remap to the end equals executing them in order under the discipline the type asserts; every operation sequence up to length 3 (thorough 4) "
-             "and seeded longer ones run on the real type and to_delete/to_insert are compared with the spec (TraceTmp.tla, conformance).",
+             "and seeded longer ones run on the real type and to_delete/to_insert are compared with the spec (TraceTmp.tla, conformance); spec/TmpNodesPar.tla: two buffers over disjoint id sets (what (1)-(4) guarantee) commute and "
+             "each thread's effect is its own sequential meaning, refuted when they share an id.",
         note="Relaxed memory orderings are not modelled (sequentially consistent interleavings of the atomic operations only); rayon's own scheduling is sampled, not enumerated.",
         ref="5 (C13)", technique="TLA+ model checking + TLAPS proof of the unbounded generator + schedule enumeration on the real code through a yield-point hook, validated by TLC"),
 })
